@@ -38,10 +38,12 @@ example : ∃ a, g6Encode (GI.ofG (ofEdges 3 [(0, 1), (1, 2)])) = .ok a ∧ a.to
 `Graph6Decode(Graph6Encode(g))` succeeds — with and without the optional `>>graph6<<` header — and returns a
 well-formed `DenseGraph` on the same vertices with the same adjacency. -/
 theorem g6_roundtrip (g : GI) (hwf : g.toG.WF) (hn : g.n * (g.n - 1) / 2 < 2 ^ 63) :
-    ∃ a d, g6Encode g = .ok a ∧ g6Decode a = .ok (some d) ∧ g6Decode (g6Magic.toArray ++ a) = .ok (some d) ∧
+    ∃ a d, g6Encode g = .ok a ∧ g6Decode a = .ok (some d) ∧ g6Decode (g6Header.toArray ++ a) = .ok (some d) ∧
       d.WF ∧ d.n = g.n ∧ ∀ u v, d.toG.adj u v = g.isEdge u v := by
   obtain ⟨a, h1, h2, h3⟩ := g6_roundtrip_denseOf g hwf hn
-  exact ⟨a, denseOf g.toG, h1, h2, h3, denseOf_wf _ hwf, rfl, fun u v => denseOf_adj _ hwf u v⟩
+  -- the header string the code tests for is the format's
+  have hh : g6Magic = g6Header := by decide
+  exact ⟨a, denseOf g.toG, h1, h2, hh ▸ h3, denseOf_wf _ hwf, rfl, fun u v => denseOf_adj _ hwf u v⟩
 
 /-- non-vacuity -/
 example : ∃ a d, g6Encode (GI.ofG (ofEdges 3 [(0, 1), (1, 2)])) = .ok a ∧ g6Decode a = .ok (some d) ∧ d.n = 3 := by
@@ -108,11 +110,12 @@ theorem s6_follows_format (g : GI) (hs : g.Sound) (hn : g.n ≤ 68719476735) :
 `>>sparse6<<` header — and returns a well-formed `SparseGraph` on the same vertices with the same adjacency
 (in particular for edgeless graphs, streams that end on a byte boundary, `n = 0, 1`, and `n` a power of two). -/
 theorem s6_roundtrip (g : GI) (hs : g.Sound) (hn : g.n ≤ 68719476735) :
-    ∃ a d, s6Encode g = .ok a ∧ s6Decode a = .ok (some d) ∧ s6Decode (s6Magic.toArray ++ a) = .ok (some d) ∧
+    ∃ a d, s6Encode g = .ok a ∧ s6Decode a = .ok (some d) ∧ s6Decode (s6Header.toArray ++ a) = .ok (some d) ∧
       d.WF ∧ d.n = g.n ∧ ∀ u v, d.toG.adj u v = g.isEdge u v := by
   obtain ⟨a, h1, h2, _, h4⟩ := Codec.s6_spec_decodes g hs hn
   obtain ⟨h5, h6⟩ := s6_roundtrip_of_spec g.toG hs.wf a h2 h4
-  exact ⟨a, sparseOf g.toG, h1, h5, h6, sparseOf_wf _ hs.wf, rfl, fun u v => sparseOf_adj _ hs.wf u v⟩
+  have hh : s6Magic = s6Header := by decide
+  exact ⟨a, sparseOf g.toG, h1, h5, hh ▸ h6, sparseOf_wf _ hs.wf, rfl, fun u v => sparseOf_adj _ hs.wf u v⟩
 
 /-- non-vacuity: K2, the case whose padding used to be read as vertex 2 -/
 example : ∃ a d, s6Encode (GI.ofG (ofEdges 2 [(0, 1)])) = .ok a ∧ s6Decode a = .ok (some d) ∧ d.n = 2 := by
@@ -143,6 +146,12 @@ theorem mc_roundtrip (g : GI) (hs : g.Sound) (hn : g.n ≤ 255) :
     rw [this]; exact mcDecode_spec g.toG hs.wf hn
   exact ⟨a, denseOf g.toG, h1, h2, fun c hc => mcSpec_bytes g.toG hn c (h2 ▸ hc), h3, denseOf_wf _ hs.wf, rfl,
     fun u v => denseOf_adj _ hs.wf u v⟩
+
+/-- **Multicode's limit.** A record names vertices by one byte each (`j+1 ≤ 255`): a graph with more than 255 vertices
+is refused (`panic("Graph too large for Multicode")`), never encoded wrongly. -/
+theorem mc_limit (g : GI) (h : 255 < g.n) : mcEncode g = .panic := by
+  unfold mcEncode
+  rw [if_pos h]
 
 /-- non-vacuity -/
 example : ∃ a d, mcEncode (GI.ofG (ofEdges 3 [(0, 1), (1, 2)])) = .ok a ∧ mcDecode a = .ok d ∧ d.n = 3 := by
@@ -215,6 +224,11 @@ example : ∃ g : GI, g.Sound ∧ IsTree g.toG ∧ 2 ≤ g.n := by
   refine ⟨GI.ofG d.toG, ofG_sound _ (Dense.toG_wf d), h4, ?_⟩
   show 2 ≤ d.n
   omega
+
+/-- **regeneration.** `verif/extract` recognised the shape of every format constant of `graph/encoding.go`
+(`Mamba/Gen/CodecConsts.lean`, rewritten from the source on every run); the model `Mamba/Model/Codec.lean` is elaborated
+with those values, so every theorem of this file is re-checked against the constants the source contains now. -/
+theorem gen_constants_found : Gen.Codec.allFound = true := by decide
 
 end C07
 end Codec
